@@ -259,6 +259,21 @@ pub fn run_case(seed: u64, stream: u64, index: u64, cfg: &HistCfg, md: Option<&m
             w.out.failures.push(json!({"property": "C01", "class": if any_pending { "diverged-while-stuck" } else { "tombstone-order-diverged" }, "replica": i, "internal_0": ints[0], "internal_i": ints[i]}));
         }
     }
+    // ---- block layer: whatever splits and squashes a replica's store went through, the unit-level view of its full state (ids,
+    // origins, right origins, parents where transmitted, contents) is the unit-level view of the updates as they were first emitted
+    if w.md.is_some() && !msgs.is_empty() {
+        for i in 0..nrep {
+            if w.reps[i].doc.transact().has_missing_updates() { continue; }
+            let full = w.reps[i].doc.transact().encode_state_as_update_v1(&yrs::StateVector::default());
+            let req = format!("DEC unitcmp {} {}", hex(&full), msgs.iter().map(|m| hex(&m.v1)).collect::<Vec<_>>().join(" "));
+            let ans = w.md.as_mut().unwrap().ask(&req);
+            *w.out.stats.entry("full_states_compared_unit_by_unit_with_the_original_updates".into()).or_insert(0) += 1;
+            if !ans.starts_with("ok ") {
+                w.out.failures.push(json!({"property": "C04", "class": "units-of-the-store-differ-from-the-units-as-emitted", "replica": i, "model": ans, "full_state": hex(&full),
+                    "what": "a unit of the replica's full state has another origin / right origin / parent / content than the same unit in the update that created it: a block split or squash changed it"}));
+            }
+        }
+    }
     // ---- exhaustive tier: a fresh replica per permutation of all messages (<= 5 messages)
     if cfg.exhaustive_perms && msgs.len() >= 2 && msgs.len() <= 5 {
         let expect = &pubs[0];
